@@ -44,10 +44,46 @@ def bitvec(bits) -> bytes:
     return bytes(out)
 
 
-def write_7z(files, layout="solid", lie_stream=(), substreams=True, attr_external_byte=False) -> bytes:
+PROP_IDS = {"empty_stream": 0x0E, "empty_file": 0x0F, "anti": 0x10, "ctime": 0x12, "atime": 0x13, "mtime": 0x14,
+            "startpos": 0x18, "dummy": 0x19}
+
+
+def encode_props(n_files, props) -> bytes:
+    """FilesInfo property records from a semantic list, in the given order:
+    ("empty_stream"|"empty_file"|"anti", bits) ("dummy", k) ("ctime"|"atime"|"mtime"|"startpos", None)
+    ("names", [str], external_byte) ("attrs", defined_bits, [uint32 of the defined ones]) ("raw", id, bytes)"""
+    out = bytearray()
+    for pr in props:
+        kind = pr[0]
+        if kind in ("empty_stream", "empty_file", "anti"):
+            body = bitvec(pr[1])
+            pid = PROP_IDS[kind]
+        elif kind == "dummy":
+            body, pid = bytes(pr[1]), 0x19
+        elif kind in ("ctime", "atime", "mtime", "startpos"):
+            body, pid = bytes([0x01, 0x00]) + bytes(8 * n_files), PROP_IDS[kind]
+        elif kind == "names":
+            body = bytes([pr[2]]) + b"".join(x.encode("utf-16-le", "surrogatepass") + b"\x00\x00" for x in pr[1])
+            pid = 0x11
+        elif kind == "attrs":
+            defined, vals = pr[1], pr[2]
+            body = (bytes([0x01]) if all(defined) else bytes([0x00]) + bitvec(defined))
+            body += b"".join(struct.pack("<I", v) for v in vals)
+            pid = 0x15
+        else:
+            pid, body = pr[1], bytes(pr[2])
+        out += bytes([pid]) + num(len(body)) + body
+    return bytes(out)
+
+
+def write_7z(files, layout="solid", lie_stream=(), substreams=True, attr_external_byte=False,
+             props=None, n_files=None, streams=None) -> bytes:
+    """props/n_files/streams given: `files` is ignored, the FilesInfo section is encode_props(n_files, props) and
+    the packed data are `streams` (one folder when solid)."""
     lie = set(lie_stream)
-    streams = [f["data"] for i, f in enumerate(files) if f.get("data") is not None]
-    empty = [(f.get("data") is None) and (i not in lie) for i, f in enumerate(files)]
+    if props is None:
+        streams = [f["data"] for i, f in enumerate(files) if f.get("data") is not None]
+        empty = [(f.get("data") is None) and (i not in lie) for i, f in enumerate(files)]
     if layout == "solid":
         folders = [streams] if streams else []
     else:
@@ -73,6 +109,12 @@ def write_7z(files, layout="solid", lie_stream=(), substreams=True, attr_externa
                                                 for fo in folders for d in fo)
             h += bytes([0x00])
         h += bytes([0x00])
+    if props is not None:
+        h += bytes([0x05]) + num(n_files) + encode_props(n_files, props) + bytes([0x00, 0x00])
+        header = bytes(h)
+        start = struct.pack("<QQI", len(packed), len(header), zlib.crc32(header) & 0xFFFFFFFF)
+        return (b"7z\xbc\xaf\x27\x1c" + bytes([0, 4]) + struct.pack("<I", zlib.crc32(start) & 0xFFFFFFFF)
+                + start + packed + header)
     h += bytes([0x05]) + num(len(files))       # FilesInfo
     if any(empty):
         v = bitvec(empty)
